@@ -50,6 +50,9 @@ func (c *Module) Connect(conn *sqlite.Conn, args []string,
 
 	err = declare(table.SchemaString)
 	if err != nil {
+		// the table was registered by New(); a failed CREATE must not keep
+		// the name (and the open tree) behind
+		_ = table.Disconnect()
 		return nil, fmt.Errorf("declare: %w", err)
 	}
 
